@@ -12,7 +12,7 @@ import subprocess
 HERE = os.path.dirname(os.path.dirname(os.path.abspath(__file__)))
 head = subprocess.run(['git', '-C', '/repo', 'rev-parse', 'HEAD'], capture_output=True, text=True).stdout.strip()
 FIRST = subprocess.run(['git', '-C', '/repo', 'rev-parse', '3d2c4e1'], capture_output=True, text=True).stdout.strip()
-commits = subprocess.run(['git', '-C', '/repo', 'log', '--format=%H', '-n', '60'], capture_output=True, text=True).stdout.split()
+commits = subprocess.run(['git', '-C', '/repo', 'log', '--format=%H', '-n', '200'], capture_output=True, text=True).stdout.split()
 clone = '/tmp/pin-clone'
 subprocess.run(['rm', '-rf', clone])
 subprocess.run(['git', 'clone', '-q', '/repo', clone], check=True)
@@ -27,6 +27,14 @@ for d in sorted(glob.glob(os.path.join(HERE, 'seeded', 'C*'))):
     except Exception:
         m = {}
     base = None
+    keep = m.get('base_commit')
+    if keep:
+        # a base recorded at collection time (the commit the author wrote the change on) stays
+        # as long as the patch still applies there strictly
+        subprocess.run(['git', 'checkout', '-q', '-f', keep], cwd=clone)
+        if subprocess.run(['git', 'apply', '--check', patch], cwd=clone, capture_output=True).returncode == 0:
+            n += 1
+            continue
     for c in reversed(commits[:commits.index(FIRST) + 1] if FIRST in commits else commits):
         subprocess.run(['git', 'checkout', '-q', '-f', c], cwd=clone)
         if subprocess.run(['git', 'apply', '--check', patch], cwd=clone, capture_output=True).returncode == 0:
